@@ -412,10 +412,50 @@ func Run(c *corr.Ctx) {
 		c.Dist("unreliable=" + corr.B(h.Unreliable))
 		recvRun(c, h, fmt.Sprintf("gen-%d", i))
 	}
+	// every wrap position: a set of history shapes replayed from EVERY starting sequence number
+	// (thorough: all 65536; quick: 2048 spread over the range plus the neighbourhood of 0 / 2^15)
+	nShapes := c.N(6, 40)
+	var shapes []*RecvHistory
+	for len(shapes) < nShapes {
+		h := genRecvHistory(c)
+		if len(h.Seqs) < 4 || !h.Unreliable {
+			continue
+		}
+		if len(h.Seqs) > 24 {
+			h.Seqs, h.IDs, h.Orig = h.Seqs[:24], h.IDs[:24], h.Orig[:24]
+		}
+		h.ReportAt = []int{len(h.Seqs) - 1}
+		shapes = append(shapes, h)
+	}
+	var starts []uint16
+	if c.Quick() {
+		for i := 0; i < 2048; i++ {
+			starts = append(starts, uint16(i*32))
+		}
+		for d := -24; d <= 24; d++ {
+			starts = append(starts, uint16(65536+d), uint16(32768+d))
+		}
+	} else {
+		for i := 0; i < 65536; i++ {
+			starts = append(starts, uint16(i))
+		}
+	}
+	for si, sh := range shapes {
+		base := sh.Seqs[0]
+		for _, st := range starts {
+			h := &RecvHistory{Unreliable: true, Size: sh.Size, IDs: sh.IDs, Orig: sh.Orig, ReportAt: sh.ReportAt}
+			h.Seqs = make([]uint16, len(sh.Seqs))
+			for i, q := range sh.Seqs {
+				h.Seqs[i] = st + (q - base)
+			}
+			recvRun(c, h, fmt.Sprintf("allstarts-%d-%d", si, st))
+		}
+	}
+	c.DistN("all-starts-cases", len(shapes)*len(starts))
 	// exhaustive small scope: all histories of length ≤ L over a window of W sequence numbers
 	// around chosen wrap positions
 	L, W := 5, 6
-	starts := []uint16{0, 65533, 32765, 1000}
+	starts = []uint16{0, 65533, 32765, 1000}
 	if !c.Quick() {
 		L, W = 6, 7
 		starts = []uint16{0, 65530, 65533, 65535, 32765, 32767, 1000, 4095, 61440}
